@@ -29,19 +29,44 @@ def jobs(tier):
     # CONCRETE prefix (first digit / 0x / 0b / 0) and a symbolic rest up to the overflow boundary.
     add('toi_u64_n3', 'h_toi_u64', ['C04'], 5, dict(NMAX=3, WLEN=3), 600, 'to_integer<uint64_t> vs reference grammar+value, all first bytes', 'all byte strings <= 3 B')
     add('toi_i64_n3', 'h_toi_i64', ['C04'], 5, dict(NMAX=3, WLEN=3), 600, 'to_integer<int64_t>, all first bytes', 'all byte strings <= 3 B')
-    pf = [("'1'", 20), ("'9'", 19)] if not t else [("'%d'" % d, 20 if d == 1 else 19) for d in range(1, 10)]
-    for c, w in pf:
-        add('toi_u64_dec%s' % c[1], 'h_toi_u64', ['C04'], 23, dict(NMAX=21, NMIN=17, WLEN=w, PFX0=c), 900, 'to_integer<uint64_t>, decimal branch', 'first byte %s concrete, rest symbolic, length 17..21' % c)
-        add('toi_i64_dec%s' % c[1], 'h_toi_i64', ['C04'], 23, dict(NMAX=21, NMIN=17, WLEN=19, PFX0=c), 900, 'to_integer<int64_t>, decimal branch', 'first byte %s concrete, rest symbolic, length 17..21' % c)
-        add('toi_i64_negdec%s' % c[1], 'h_toi_i64', ['C04'], 24, dict(NMAX=22, NMIN=18, WLEN=20, PFX0="'-'", PFX1=c), 900, 'to_integer<int64_t>, negative decimal branch', 'prefix -%s concrete, rest symbolic, length 18..22' % c[1])
-    add('toi_u64_hex', 'h_toi_u64', ['C04'], 21, dict(NMAX=19, NMIN=2, WLEN=18, PFX0="'0'", PFX1="'x'"), 900, 'to_integer<uint64_t>, 0x branch', 'prefix 0x concrete, rest symbolic, length 2..19')
-    add('toi_i64_neghex', 'h_toi_i64', ['C04'], 22, dict(NMAX=20, NMIN=3, WLEN=19, PFX0="'-'", PFX1="'0'", PFX2="'X'"), 900, 'to_integer<int64_t>, -0X branch', 'prefix -0X concrete, rest symbolic, length 3..20')
-    add('toi_u64_oct', 'h_toi_u64', ['C04'], 26, dict(NMAX=24, NMIN=2, WLEN=23, PFX0="'0'", PFX1="'1'"), 900, 'to_integer<uint64_t>, octal branch', 'prefix 01 concrete, rest symbolic, length 2..24')
+    def toi(id, h, n, w, pfx, desc, unwind=None):
+        d = dict(NMAX=n, WLEN=n, FIXN=1)
+        neg = pfx.startswith('-'); body = pfx.lstrip('-')
+        lim = {'h_toi_u64': (2**64 - 1, 0), 'h_toi_i64': (2**63 - 1, 2**63), 'h_toi_i32': (2**31 - 1, 2**31)}[h][1 if neg else 0]
+        if body[:2] in ('0x', '0X', '0b'):
+            least = 0
+        elif body[0] == '0':
+            least = int(body[1:] + '0' * (n - len(pfx)), 8)
+        else:
+            least = int(body + '0' * (n - len(pfx)))
+        if least > lim:
+            d['WEC'] = 34   # no literal with this prefix and length fits: the witness is a rejected (ERANGE) run
+        for i, c in enumerate(pfx):
+            d['PFX%d' % i] = "'%s'" % c
+        add('%s_n%d' % (id, n), h, ['C04'], unwind or n + 2, d, 600, desc, 'prefix "%s" concrete, remaining %d bytes symbolic (length %d)' % (pfx, n - len(pfx), n))
     if t:
-        add('toi_u64_bin', 'h_toi_u64', ['C04'], 30, dict(NMAX=28, NMIN=2, WLEN=28, PFX0="'0'", PFX1="'b'"), 1800, 'to_integer<uint64_t>, 0b branch (overflow boundary at 66 chars is outside the bound)', 'prefix 0b concrete, rest symbolic, length 2..28')
+        for c in '123456789':
+            for n in [19, 20, 21]:
+                toi('toi_u64_dec' + c, 'h_toi_u64', n, n, c, 'to_integer<uint64_t>, decimal branch')
+            for n in [18, 19, 20]:
+                toi('toi_i64_dec' + c, 'h_toi_i64', n, n, c, 'to_integer<int64_t>, decimal branch')
+                toi('toi_i64_negdec' + c, 'h_toi_i64', n + 1, n + 1, '-' + c, 'to_integer<int64_t>, negative decimal branch')
+        for n in [17, 18, 19]:
+            toi('toi_u64_hex', 'h_toi_u64', n, n, '0x', 'to_integer<uint64_t>, 0x branch')
+            toi('toi_i64_neghex', 'h_toi_i64', n + 1, n + 1, '-0X', 'to_integer<int64_t>, -0X branch')
+        for n in [22, 23]:
+            toi('toi_u64_oct', 'h_toi_u64', n, n, '01', 'to_integer<uint64_t>, octal branch')
+        toi('toi_u64_bin', 'h_toi_u64', 30, 30, '0b', 'to_integer<uint64_t>, 0b branch (overflow boundary at 66 chars is outside the bound)')
+    else:
+        # quick tier: one boundary job per branch (the rest run in the thorough tier)
+        toi('toi_u64_dec1', 'h_toi_u64', 20, 20, '1', 'to_integer<uint64_t>, decimal branch at the 2^64 boundary')
+        toi('toi_i64_dec9', 'h_toi_i64', 19, 19, '9', 'to_integer<int64_t>, decimal branch at the 2^63 boundary')
+        toi('toi_i64_negdec9', 'h_toi_i64', 20, 20, '-9', 'to_integer<int64_t>, negative decimal branch at the -2^63 boundary')
+        toi('toi_u64_hex', 'h_toi_u64', 18, 18, '0x', 'to_integer<uint64_t>, 0x branch, 16 hex digits')
     add('toi_i32_n3', 'h_toi_i32', ['C04'], 5, dict(NMAX=3, WLEN=3), 600, 'to_integer<int32_t>, all first bytes', 'all byte strings <= 3 B')
-    add('toi_i32_dec2', 'h_toi_i32', ['C04'], 14, dict(NMAX=12, NMIN=8, WLEN=10, PFX0="'2'"), 600, 'to_integer<int32_t>, decimal branch', 'first byte 2 concrete, rest symbolic, length 8..12')
-    add('toi_i32_negdec2', 'h_toi_i32', ['C04'], 15, dict(NMAX=13, NMIN=9, WLEN=11, PFX0="'-'", PFX1="'2'"), 600, 'to_integer<int32_t>, negative decimal', 'prefix -2 concrete, rest symbolic, length 9..13')
+    for n in [10, 11]:
+        toi('toi_i32_dec2', 'h_toi_i32', n, n, '2', 'to_integer<int32_t>, decimal branch')
+        toi('toi_i32_negdec2', 'h_toi_i32', n + 1, n + 1, '-2', 'to_integer<int32_t>, negative decimal')
     add('hex_u64', 'h_hex_u64', ['C04'], 20, dict(NMAX=18, WLEN=16), 600, 'hex_to_integer<uint64_t> vs u128 reference', 'all byte strings 1..18 B')
     add('hex_i64', 'h_hex_i64', ['C04'], 20, dict(NMAX=18, WLEN=17), 600, 'hex_to_integer<int64_t>', 'all byte strings 1..18 B')
     add('is_base10', 'h_is_base10', ['C04'], 12, dict(NMAX=10), 300, 'is_base10 == -?[0-9]+', 'all byte strings <= 10 B')
